@@ -2860,7 +2860,8 @@ impl platform::Symbol for SymtabEntry {
         let Ok(alignment) = Alignment::new(object::read::elf::Sym::st_value(self, e)) else {
             return None;
         };
-        let size = alignment.align_up(object::read::elf::Sym::st_size(self, e));
+        let size =
+            object::read::elf::Sym::st_size(self, e).checked_next_multiple_of(alignment.value())?;
 
         let output_section_id = if self.st_type() == object::elf::STT_TLS {
             output_section_id::TBSS
